@@ -99,11 +99,15 @@ CHECKS["C11"] = {
             "their two lengths and the raw flag blocks including bits beyond size(). Every constructor (default construction by placement into 0xA5- and 0x00-filled storage in both initialisation forms), every resize "
             "overload for every size, and every element write path (value x flag through [] at front back, forward/reverse iterators, arrow, value-only, flag-only, direct storage) is applied to every reachable state "
             "up to the maximal size, to FIXPOINT; the model is a vector of pairs. A history explorer with fault injection additionally throws at every element copy of every resize/constructor of a vector over a "
-            "throwing-copy element type and requires the storages to stay in lockstep.",
+            "throwing-copy element type and requires the storages to stay in lockstep. Four scenario enumerations on fresh containers complete the BFS: arguments referring into the container itself x "
+            "capacity preparation (alias), every flag block type x sizes around block boundaries x every index x write path (sweep), reads of non-trivially-movable element values (std::string, a stealing "
+            "handle) through the prvalue proxy of every access path in every assignment / construction / copy form with a complete re-read of the source (read), and ==/!= over all pairs of states whose "
+            "floating-point parts include +-0, NaNs and infinities against std::vector equality (fp).",
     "design_ref": "DESIGN.md section 3, C11",
     "note": "Trusted: the pair-vector model. Bounds: maximal size 4 (quick) / 5-6 (thorough), values {0,7}; size 9 over 8-bit flag blocks with boundary indices. begin() of the array variants and whole-element assignment "
-            "to a complex proxy are ill-formed on this tree (capability-probed, reported in the evidence); array constructors are called with the container's own size as the statement says.",
-    "technique": "explicit-state model checking of the implementation (BFS to fixpoint over raw container states) plus throw-point enumeration for resize",
+            "to a complex proxy are ill-formed on this tree (capability-probed, reported in the evidence); array constructors are called with the container's own size as the statement says. "
+            "Read part: sizes <= 4 (thorough <= 9); std::move of a named proxy not enumerated. Fp part: sizes <= 2 over 8 values per part, size 3 over {+0,-0,NaN}; 'match' = the element type's ==; long double not instantiated.",
+    "technique": "explicit-state model checking of the implementation (BFS to fixpoint over raw container states) plus throw-point enumeration for resize plus exhaustive scenario enumeration on fresh containers (alias, sweep, read, fp)",
 }
 
 CHECKS["C17"] = {
